@@ -435,6 +435,40 @@ func isErrorConstructor(c *ssa.CallCommon) bool {
 	return false
 }
 
+// calleeErrKind: a function of the repository all of whose returns carry a
+// non-nil error (an error constructor such as connect.InvalidCSRError) is
+// RetFailure, one that only ever returns nil is RetSuccess.
+var calleeErrMemo = map[*ssa.Function]RetKind{}
+var calleeErrBusy = map[*ssa.Function]bool{}
+
+func calleeErrKind(g *ssa.Function) RetKind {
+	if g == nil || len(g.Blocks) == 0 || !IsConsulFunc(g) || ErrResultIndex(g) < 0 {
+		return RetUnknown
+	}
+	if k, ok := calleeErrMemo[g]; ok {
+		return k
+	}
+	if calleeErrBusy[g] {
+		return RetUnknown
+	}
+	calleeErrBusy[g] = true
+	defer delete(calleeErrBusy, g)
+	kind := RetKind(-1)
+	for _, rt := range Returns(g) {
+		k := ClassifyReturn(rt)
+		if k == RetUnknown || (kind != -1 && kind != k) {
+			kind = RetUnknown
+			break
+		}
+		kind = k
+	}
+	if kind == -1 {
+		kind = RetUnknown
+	}
+	calleeErrMemo[g] = kind
+	return kind
+}
+
 // ErrKindOfValue classifies an error-typed value at the head of block b.
 func ErrKindOfValue(v ssa.Value, b *ssa.BasicBlock) RetKind {
 	return errKind(v, b, 0)
@@ -453,6 +487,17 @@ func errKind(v ssa.Value, b *ssa.BasicBlock, depth int) RetKind {
 	case *ssa.Call:
 		if isErrorConstructor(&x.Call) {
 			return RetFailure
+		}
+		if k := calleeErrKind(x.Call.StaticCallee()); k != RetUnknown {
+			return k
+		}
+	case *ssa.Extract:
+		if c, ok := x.Tuple.(*ssa.Call); ok {
+			if g := c.Call.StaticCallee(); g != nil && ErrResultIndex(g) == x.Index {
+				if k := calleeErrKind(g); k != RetUnknown {
+					return k
+				}
+			}
 		}
 	case *ssa.UnOp:
 		if x.Op == token.MUL {
